@@ -534,7 +534,7 @@ func run(thorough bool) func(shard, shards int, deadline time.Time) *explore.Res
 			}, true},
 		)
 		for _, rf := range refs {
-			for _, sigKind := range []string{"by-target", "by-other-key", "over-swapped-pair"} {
+			for _, sigKind := range []string{"by-target", "by-other-key", "over-swapped-pair", "valid-for-another-source"} {
 				if sigKind != "by-target" && rf.name != "control/no-involvement" {
 					continue
 				}
@@ -564,6 +564,15 @@ func run(thorough bool) func(shard, shards int, deadline time.Time) *explore.Res
 					reject = true
 				case "over-swapped-pair":
 					sg = sign(tgt, tgt.Acc(), src.Acc())
+					reject = true
+				case "valid-for-another-source":
+					// the target authorised the migration of another account; that message has already been looked at by this
+					// node (stateless validation, a run that was not kept) before the signature is presented for this source
+					s2 := newLegacy(e, ctx, "srcX", 10)
+					sg = sign(tgt, s2.Acc(), tgt.Hex().Bytes())
+					if pr := w.Deliver(world.Branch(ctx), migratetypes.NewMsgMigrateAccount(s2.Acc(), tgt.Hex(), sg)); !pr.OK() {
+						panic("c14: the migration the signature belongs to is refused: " + pr.String())
+					}
 					reject = true
 				}
 				name := rf.name + "/sig=" + sigKind
@@ -611,7 +620,7 @@ func init() {
 	registry.Register(&registry.Check{
 		ID:    "C14",
 		Level: "model_checking",
-		Rule:  "family A: every source portfolio in {second denom} x {no delegation, V1, V1+V2} x {0,1,2 unbonding entries on V1} x {entry shares / does not share its completion time with another delegator} x {redelegation} x {pending rewards} is built through ordinary messages and migrated to a fresh target; oracles: portfolio(target) after = portfolio(source) before, source empty, validator totals and supply unchanged, all crisis invariants, second migration refused, and a twin run - withdraw, fully undelegate, wait 22 days - gives the migrated target exactly what the un-migrated source gets on a sibling branch. Family B: governance involvement {proposer, depositor, voter} x {deposit period, voting period, ended} x {source, target}, target with delegation / unbonding / validator operator / already migrated, signature by another key / over the swapped pair: accepted iff the statement's conditions hold, refusals change no byte. states = distinct configurations",
+		Rule:  "family A: every source portfolio in {second denom} x {no delegation, V1, V1+V2} x {0,1,2 unbonding entries on V1} x {entry shares / does not share its completion time with another delegator} x {redelegation} x {pending rewards} is built through ordinary messages and migrated to a fresh target; oracles: portfolio(target) after = portfolio(source) before, source empty, validator totals and supply unchanged, all crisis invariants, second migration refused, and a twin run - withdraw, fully undelegate, wait 22 days - gives the migrated target exactly what the un-migrated source gets on a sibling branch. Family B: governance involvement {proposer, depositor, voter} x {deposit period, voting period, ended} x {source, target}, target with delegation / unbonding / validator operator / already migrated, signature by another key / over the swapped pair / valid for another source and already seen by the node: accepted iff the statement's conditions hold, refusals change no byte. states = distinct configurations",
 		Assumptions: []string{"source accounts are legacy secp256k1 accounts whose public key is on record (the module requires it)", "stake unit 100 FX; validators never slashed here"},
 		Jobs: func(tier string) []registry.Job {
 			return []registry.Job{{Name: "portfolios+conditions", Custom: run(tier == "thorough"), Shards: 16}}
